@@ -58,6 +58,13 @@ def run_learn(it_tr, Xtr, Ytr, Xva, Yva, n_iter, draws_seed):
     from opfython.models.supervised import SupervisedOPF
     opf = SupervisedOPF(distance=it_tr)
     Xtr, Ytr, Xva, Yva = Xtr.copy(), Ytr.copy(), Xva.copy(), Yva.copy()
+    if draws_seed % 3 == 2:
+        # the caller's feature matrices need not be C-contiguous: column-strided views of wider buffers
+        def strided(A):
+            wide = np.full((A.shape[0], 2 * A.shape[1]), 7.5)
+            wide[:, ::2] = A
+            return wide[:, ::2]
+        Xtr, Xva = strided(Xtr), strided(Xva)
     recs = []
     trace = dict(draws=[], best_calls=[])
     orig_acc, orig_rand, orig_copy = g.opf_accuracy, r.generate_uniform_random_number, sup_mod.copy
